@@ -133,8 +133,11 @@ void prop_enumerate(void) {
     /* recursive branch of mzd_trtri_upper: nrows*ncols >= 2*L3 */
     long lim = (long)__M4RI_CPU_L3_CACHE << 1; int n0 = 1; while ((long)n0 * n0 < lim) n0++;
     if (n0 <= 1400) {
-      int ns[] = {n0 - 1, n0, n0 + 1, n0 + 64, 513, 769};
-      for (int i = 0; i < (vx_tier ? 6 : 4); i++) for (int d = 0; d < 2; d++) { pm *U = pm_unit_upper(ns[i], 3, d); snprintf(desc, sizeof desc, "UTPR(%d,dens=%d)", ns[i], d); trtri_block(U, desc, 0); pm_free(U); }
+      /* 513 / 769: the automatic table parameter reaches 7 there, which is where the cache-size heuristic of the Four-Russians
+         inversion (0.75 * 2^k * n > L3 / 2) starts to lower it; every explicit k is run on 200 and 513 for the same reason */
+      int ns[] = {n0 - 1, n0, 513, 769, n0 + 1, n0 + 64, 200};
+      for (int i = 0; i < (vx_tier ? 7 : 4); i++) for (int d = 0; d < 2; d++) { pm *U = pm_unit_upper(ns[i], 3, d); snprintf(desc, sizeof desc, "UTPR(%d,dens=%d)", ns[i], d); trtri_block(U, desc, d == 0 && (ns[i] == 513 || ns[i] == 200)); pm_free(U); }
+      if (!vx_tier) { pm *U = pm_unit_upper(200, 3, 0); snprintf(desc, sizeof desc, "UTPR(%d,dens=%d)", 200, 0); trtri_block(U, desc, 1); pm_free(U); }
       pm *A = pm_dense_invertible(n0 + 1, 1); snprintf(desc, sizeof desc, "DENSE(%d)", n0 + 1); inv_block(A, desc, 0); pm_free(A);
     }
   }
